@@ -1231,3 +1231,30 @@ func cellOf(v ssa.Value) *ssa.Alloc {
 	}
 	return nil
 }
+
+// viaField reports whether v is (an address inside) the value loaded from struct field fld, e.g.
+// &p.conn.conn for fld = conn (promoted methods of embedded structs take such receivers).
+func viaField(v ssa.Value, fld *types.Var) bool {
+	for i := 0; i < 6 && v != nil; i++ {
+		if f, _ := loadedField(v); f != nil {
+			if f == fld {
+				return true
+			}
+		}
+		switch x := v.(type) {
+		case *ssa.FieldAddr:
+			v = x.X
+		case *ssa.UnOp:
+			if x.Op != token.MUL {
+				return false
+			}
+			if f, _ := addrField(x.X); f == fld {
+				return true
+			}
+			v = x.X
+		default:
+			return false
+		}
+	}
+	return false
+}
